@@ -70,11 +70,15 @@ MonotoneClauses(e, P) ==
     LET ft == P.feats[f]  cells == e.frame[f]  o == e.out[f] IN
     IF Len(o) # Len(cells) THEN {}
     ELSE IF ft.kind = "quanti"
-    THEN Flag(\A i, j \in DOMAIN cells :
+    THEN Flag(\A i \in DOMAIN o : o[i][1] \in {0, 1}, "C03_float_output_is_not_a_rank")      \* a number (or a restored missing value)
+         \cup
+         Flag(\A i, j \in DOMAIN cells :
                  (cells[i] # NAN /\ cells[j] # NAN /\ cells[i] <= cells[j] /\ o[i][1] = 1 /\ o[j][1] = 1) => o[i][2] <= o[j][2],
               "C03_transform_not_monotone")
     ELSE IF e.ranking[f] = <<>> THEN {}
     ELSE LET rk == e.ranking[f] IN
+         Flag(\A i \in DOMAIN o : o[i][1] \in {0, 1}, "C03_float_output_is_not_a_rank")
+         \cup
          Flag(\A i, j \in DOMAIN cells :
                  \* a value is ranked through itself or through its string form (numeric codes)
                  LET a == RankPos(rk, cells[i])  b == RankPos(rk, cells[j]) IN
@@ -203,7 +207,8 @@ JudgeReload(e, S, O) ==
         \cup (IF e.outcome # 0 THEN {} ELSE
               Flag(O = S, "Conf_reloaded_state_differs")
               \cup Flag(e.json_idempotent, "C06_json_not_idempotent")
-              \cup Flag(e.summary_equal, "C06_summary_differs")))
+              \cup Flag(e.summary_equal, "C06_summary_differs")
+              \cup Flag(e.history_equal, "C16_history_differs_after_reload")))
 
 Judge(e, P, O) ==
   CASE e.ev = "fit"       -> JudgeFit(e, O)
